@@ -173,10 +173,15 @@ def ltv_class(timevarying_c: bool):
             @property
             def c1(self):
                 return self._c1[..., self._t, :]
-        _LTV_CLASSES[key] = IndexedLTVc
+        cls = IndexedLTVc
     else:
-        _LTV_CLASSES[key] = IndexedLTV
-    return _LTV_CLASSES[key]
+        cls = IndexedLTV
+    # module-level name so that pickle finds the class
+    cls.__qualname__ = cls.__name__
+    cls.__module__ = __name__
+    globals()[cls.__name__] = cls
+    _LTV_CLASSES[key] = cls
+    return cls
 
 
 def make_system(case: dict, prob: dict):
@@ -237,13 +242,21 @@ def sin_class():
             for nme, v in (("A_", A), ("B_", B), ("c_", c), ("a_", a), ("phi_", phi), ("W_", W), ("R_", R)):
                 self.register_buffer(nme, v)
 
+        fail_at = -1       # user code raising: the k-th call of state_transition from now raises (then disarms itself)
+
         def state_transition(self, state, input, t=None):
+            if self.fail_at >= 0:
+                self.fail_at -= 1
+                if self.fail_at < 0:
+                    raise ArithmeticError("user system raised (injected by the harness)")
             lin = state @ self.A_.mT + input @ self.B_.mT + self.c_
             return lin + self.a_ * torch.sin(state @ self.W_.mT + input @ self.R_.mT + self.phi_ * t)
 
         def observation(self, state, input, t=None):
             return state
 
+    SinSys.__qualname__, SinSys.__module__ = "SinSys", __name__
+    globals()["SinSys"] = SinSys
     _SIN_CLASS.append(SinSys)
     return SinSys
 
@@ -638,3 +651,22 @@ def stepper_flags(losses, max_steps: int, patience: int, decreasing: float, tol:
             cont = False
         flags.append(1 if cont else 0)
     return flags, pc, frag
+
+
+def storage_ptr(t: torch.Tensor):
+    try:
+        return t.untyped_storage().data_ptr()
+    except Exception:
+        return None
+
+
+def owns_memory(out: torch.Tensor, others) -> str:
+    """'' when `out` has no internal overlap (stride-0 axis of extent > 1) and shares storage with none of `others`
+    (list of (name, tensor)); otherwise a description"""
+    if any(st == 0 and sz > 1 for st, sz in zip(out.stride(), out.shape)):
+        return "has internally overlapping memory (stride 0)"
+    po = storage_ptr(out)
+    for name, t in others:
+        if isinstance(t, torch.Tensor) and t.numel() > 0 and storage_ptr(t) == po and po is not None:
+            return f"shares its storage with {name}"
+    return ""
